@@ -53,9 +53,28 @@ class ToShortH(Harness):
         return (n.to_short(), n.to_json())
 
 
+def framed_shape(cls, shapes=("flat", "nested")):
+    """frame obligation around an END-TO-END run of the real recursive code on tree shapes (contracts/shapes.py)"""
+    class F(cls):
+        frame = True
+        frame_only = True
+        quick_shapes = list(shapes)
+        thorough_shapes = list(shapes) + ["shared-leaf"]
+    F.__name__ = "Frame" + cls.__name__
+    obj = F()
+    obj.name = "frame:" + cls.name
+    return obj
+
+
 HARNESSES = [framed(NegateH), framed(AssumeH), framed(VariableAssumeH), framed(VariableEvaluateH), framed(ReduceH),
              framed(FlagsH), framed(AllH), framed(AnyH), framed(XorH), framed(XNorH), framed(ImplyH), framed(NotH),
              framed(AtMostH), framed(AtLeastKH), ToShortH(), framed(AddH), framed(DefaultPriosH)]
+
+from .shapes import ShapeEvaluateH, ShapeNegateH, ShapeReduceH, ShapeJsonH
+from .c10shape import ErrorsShapeH
+from .c01glue import GlueH
+HARNESSES += [framed_shape(ShapeEvaluateH), framed_shape(ShapeNegateH), framed_shape(ShapeReduceH), framed_shape(ShapeJsonH),
+              framed(ErrorsShapeH), framed(GlueH)]
 
 
 # ------------------------------------------------------------------------------------------------------------------
